@@ -196,6 +196,8 @@ _c06_quick = [
     # k that is not a power of two (seed C06c: slot scan with a mask instead of a modulo reaches only some of the k slots)
     run("kfifo", "kb", c=0, r=1, opt={"T": 1, "m": 8, "k": 3, "segs": 3, "prefill": 0}, weight=0.5), run("kfifo", "kb", c=0, r=1, opt={"T": 1, "m": 8, "k": 5, "segs": 2, "prefill": 0}, weight=0.5),
     run("kfifo", "kb", c=0, r=2, opt={"T": 1, "m": 8, "k": 3, "segs": 2, "prefill": 0}, weight=0.5), run("kfifo", "kf_hp", c=0, r=1, opt={"T": 1, "m": 8, "k": 3, "prefill": 0}, weight=0.5),
+    # three segments, three threads x two operations: reaches known finding F-C06-4 (hole left by a withdrawn tentative insert)
+    run("kfifo", "kb", c=2, opt={"k": 1, "segs": 3, "T": 3, "m": 2, "prefill": 0}, weight=3),
     run("kfifo", "kb_boundary", c=0, horizon=8000000, wall=120, opt={"segs": 65535, "fill": 65535, "ops": 70000}),
     run("kfifo", "kb_boundary", c=0, horizon=8000000, wall=120, opt={"segs": 65536, "fill": 65536, "ops": 70000}),
     run("kfifo", "kb_boundary", c=0, horizon=8000000, wall=120, opt={"segs": 65537, "fill": 65537, "ops": 70000}),
@@ -213,6 +215,9 @@ _c06_thorough = [
 ] + [run("kfifo", "kf_" + r, c=2, r=1, opt={"k": 2}, weight=6) for r in ["hp", "hpd", "he", "qsbr", "ebr", "nebr", "debra"]] + [
     run("kfifo", "kf_stamp", c=1, r=1, opt={"k": 2}, weight=2), run("kfifo", "kf_hp", c=3, opt={"k": 1, "prefill": 0}, weight=6),
     run("kfifo", "kf_hp", c=0, r=3, opt={"T": 1, "m": 8, "k": 2, "prefill": 0}),
+] + [run("kfifo", "kb", c=2, opt={"k": 1, "segs": 3, "T": 3, "m": 2, "prefill": 0}, weight=3), run("kfifo", "kb", c=2, r=1, opt={"k": 2, "segs": 3, "T": 3, "m": 2, "prefill": 0}, weight=6),
+     run("kfifo", "kb", c=0, r=2, opt={"T": 1, "m": 8, "k": 3, "segs": 3, "prefill": 0}), run("kfifo", "kb", c=0, r=1, opt={"T": 1, "m": 8, "k": 5, "segs": 2, "prefill": 0}),
+     run("kfifo", "kb", c=1, r=1, opt={"k": 3, "segs": 3}, weight=2)
 ] + [run("kfifo", "kf_" + r, c=2, r=1, heap="reuse", opt={"k": 2}, weight=3) for r in ["hp", "he", "ebr"]] + [run("kfifo", "kf_" + r, c=2, heap="reuse", opt={"k": 1, "prefill": 0}, weight=2) for r in ["hp", "he"]]
 PLAN["C06"] = {
     "quick": _c06_quick, "thorough": _c06_thorough, "budget_s": {"quick": 150, "thorough": 1200},
